@@ -455,6 +455,38 @@ func genRandom(seed uint64, count int) []Scenario {
 			sc.Resp.Literal = strp(pick(r, garbageSigs))
 		}
 		sc.RealmClosed = r.chance(5)
+		// half of the stream is steered into a CHALLENGE / AUTHENTICATE exchange
+		if r.chance(50) {
+			m := pick(r, []string{"ticket", "wampcra", "cryptosign"})
+			found := false
+			for _, a := range sc.Router.Realms[0].Auths {
+				if a.Method == m {
+					found = true
+				}
+			}
+			if !found {
+				sc.Router.Realms[0].Auths = append(sc.Router.Realms[0].Auths, AuthCfg{Method: m, KS: stdKS(bypass)})
+			}
+			sc.Router.Closing, sc.Router.Stopped = false, false
+			sc.Hello.First, sc.Hello.Realm = "hello", "realm1"
+			if sc.Peer.Local {
+				sc.Router.Realms[0].LocalAuth = true
+			}
+			if sc.Hello.Details == nil {
+				sc.Hello.Details = jvD(map[string]any{})
+			}
+			dd := jvDict(sc.Hello.Details)
+			dd["roles"] = roles(pick(r, []string{"publisher", "subscriber", "callee", "caller"}))
+			ms := []JV{jvS(m)}
+			if r.chance(30) {
+				ms = append([]JV{jvS("bogus")}, ms...)
+			}
+			if r.chance(30) {
+				ms = append(ms, jvS(pick(r, allMethods)))
+			}
+			dd["authmethods"] = jvL(ms...)
+			dd["authid"] = jvS(pick(r, []string{"alice", "alice", "alice", "bob", "bob", "bob", "carol", "erin", "dave", "mallory"}))
+		}
 		// later messages
 		sc.Post = nil
 		for _, p := range []string{"subscribe", "publish", "call"} {
